@@ -85,13 +85,14 @@ class C08(core.Check):
     design_ref = "DESIGN.md §5 C08"
     technique = ("Lean 4 theorems over a model of Tymer and MonoTimer (any op sequence, any clock-reading sequence) + regenerated class defaults "
                  "+ differential run of the compiled model against the real classes under a scripted tymist / scripted time.time()")
-    level_text = ("Lean theorems, unconditional: tymer_reports_exactly (for every pair of tymists, constructor call and EVERY sequence of tyme assignments incl. rewinds, ticks, start/restart with or without duration/start, re-winding, each reported start/duration/elapsed/remaining/expired equals the reference timer's now-start, start+duration-now, now>=start+duration; refinement proof), tymer_restart_at_previous_stop, tymer_restarts_lossless (k restarts amid arbitrary tyme changes keep the period grid start0+k*duration), mono_elapsed_never_decreases and mono_expired_never_reverts (every timer state, retro or not, every clock, every reading sequence), mono_measures_exactly (a retro MonoTimer started at the clock, after any readings and restarts, reports elapsed = sum of non-negative increments - k*duration, remaining, expired accordingly), mono_start_forgets_the_past. Model = repaired code (2 fix: commits). Tied to the classes by a differential run on op lists under a scripted tymist / scripted time.time(); class defaults re-extracted on every run. Not modelled: the half-assigned state after Tymer.start() raises TypeError on an unwound tymer (trace stops there on both sides).")
-    level_note = ("Trusted: Lean kernel + propext/Classical.choice/Quot.sound; the sampled correspondence (float arithmetic as Int on integers x 2^-10 s); MonoTimer with an explicit start value is covered by the monotonicity theorems and the correspondence only (no exactness claim: the code aliases ._last to the given start, pinned by the tree's test). Time over Int only.")
+    level_text = ("Lean theorems, unconditional, over every linearly ordered commutative ring of time values (Int and Rat instances stated): tymer_reports_exactly (for every pair of tymists, constructor call and EVERY sequence of tyme assignments incl. rewinds, ticks, start/restart with or without duration/start, re-winding, each reported start/duration/elapsed/remaining/expired equals the reference timer's now-start, start+duration-now, now>=start+duration; refinement proof), tymer_restart_at_previous_stop, tymer_restarts_lossless (k restarts amid arbitrary tyme changes keep the period grid start0+k*duration), mono_elapsed_never_decreases and mono_expired_never_reverts (every timer state, retro or not, every clock, every reading sequence), mono_measures_exactly (a retro MonoTimer started at the clock, after any readings and restarts, reports elapsed = sum of non-negative increments - k*duration, remaining, expired accordingly), mono_start_forgets_the_past. Model = repaired code (2 fix: commits). Tied to the classes by a differential run on op lists under a scripted tymist / scripted time.time(); class defaults re-extracted on every run. Extension: Timer/AsyncTimer (plain timers, the one Doist.ado paces with) modelled and tied the same way; ptimer_monotone_on_monotone_clock (elapsed/expired monotone exactly when the clock does not go backwards, which the event-loop clock guarantees), ptimer_restart_at_previous_stop, ptimer_restarts_lossless. Rounding: raw-float streams ftymer/fmono are judged by float reference oracles only; open known finding C08-K1 (in doubles MonoTimer.elapsed can drop a few ulp on a retrograde; expired never reverts). Not modelled: the half-assigned state after Tymer.start() raises TypeError on an unwound tymer (trace stops there on both sides).")
+    level_note = ("Trusted: Lean kernel + propext/Classical.choice/Quot.sound; the sampled correspondence (float arithmetic as Int on integers x 2^-10 s); MonoTimer with an explicit start value is covered by the monotonicity theorems and the correspondence only (no exactness claim: the code aliases ._last to the given start, pinned by the tree's test). Theorems over exact ordered rings, not IEEE doubles.")
     quick_n = 3000
     thorough_n = 150000
     rule = ("cases: (tymer ...) two Tymists, a Tymer wound to one/none, op list of tyme assignments (incl. rewinds), ticks, start/restart with and "
             "without duration/start, wind; (mono ...) MonoTimer under a scripted time.time() (steady, stalled, stepped back at every position incl. "
-            "inside the constructor and exactly at start()), ops elapsed/remaining/expired/latest/duration/start/restart.  All values integers x 2^-10 s. "
+            "inside the constructor and exactly at start()), ops elapsed/remaining/expired/latest/duration/start/restart; (ptimer kind ...) Timer / AsyncTimer (fake event loop) likewise.  All values integers x 2^-10 s; "
+            "(ftymer ...), (fmono ...) raw non-dyadic floats, oracle only. "
             "non-trivial = at least 2 ops and (tymer: at least one start/restart/wind; mono: at least one backward clock step or one start/restart). distinct by request line")
     trusted_base = ["translator harness/extract/timer.py (Tymist.Tock, Tymer.Duration, MonoTimer retro default)",
                     "correspondence harness/props/C08.py + harness/areas/timer.py: compiled model driver vs hio.base.tyming.Tymer / hio.help.timing.MonoTimer on the same op lists",
@@ -117,12 +118,18 @@ class C08(core.Check):
             ("mono", 0, (5, 1, 3), (23, 10, False), (("expired",),)),
             ("mono", 100, (0, 0, -5, 3, 9), (4, None, False), (("elapsed",), ("elapsed",), ("elapsed",))),
             ("tymer", (0, 0, 32, 32), (0, None, None), ()),
+            ("ptimer", "async", 0, (0, 0, 9, 1, 5, 20), (10, None), (("expired",), ("expired",), ("restart", None), ("elapsed",), ("expired",))),
+            ("ptimer", "timer", 100, (0, 3, 4, -2, 8), (4, None), (("elapsed",), ("elapsed",), ("remaining",))),
             ("tymer", (0, 0, 32, 32), (None, None, None), (("restart", 5), ("wind", 1), ("tick", 1))),
             ("tymer", (10, 7, 1, 1), (0, 5, None), (("tyme", 0, 15), ("restart", None), ("tyme", 0, 3), ("restart", None), ("tyme", 0, 25))),
             ("tymer", (10, 7, 1, 1), (None, 5, None), (("start", None, None), ("tick", 0))),
             # raw-float stream: expired must be tyme >= stop exactly, not elapsed >= duration (rounds differently)
             ("ftymer", 4.23, 50.0, (("tyme", 54.23),)),
             ("ftymer", 0.1, 0.7, (("tyme", 0.8), ("restart", None), ("tyme", 1.5), ("restart", 0.3), ("tyme", 1.8))),
+            # raw-float MonoTimer: reading exactly at the float deadline after a retrograde; C08-K1 witness (elapsed drops 1 ulp)
+            ("fmono", 0.0, (0.0, 0.1, 0.7, -0.3, 0.3), 0.7, (("expired",), ("remaining",), ("expired",))),
+            ("fmono", 0.0, (0.0009, -0.11000000000000001, 1.1, -0.123456, 0.0, 0.06999999999999999, -0.06999999999999995), 1.1,
+             (("expired",), ("expired",), ("elapsed",), ("elapsed",), ("elapsed",))),
         ]
 
     def exhaustive(self, tier):
@@ -143,6 +150,10 @@ class C08(core.Check):
             r = rng.random()
             if r < 0.12:
                 yield gen_ftymer(rng)
+            elif r < 0.28:
+                yield T.gen_fmono(rng)
+            elif r < 0.40:
+                yield T.gen_ptimer(rng)
             elif r < 0.35:
                 yield T.gen_tymer(rng)
             elif r < 0.45:
@@ -151,17 +162,23 @@ class C08(core.Check):
                 yield T.gen_mono(rng)
 
     def request(self, case):
+        if case[0] == "fmono":
+            return T.wrapF(case)
         if case[0] != "ftymer":
             return case
         w = lambda v: sx.F(v) if isinstance(v, float) else (tuple(w(x) for x in v) if isinstance(v, tuple) else v)
         return w(case)
 
     def model_applies(self, case):
-        return case[0] != "ftymer"      # raw (non-dyadic) floats: oracle only, the model's time is Int
+        return case[0] not in ("ftymer", "fmono")      # raw (non-dyadic) floats: oracle only, the model's time is Int
 
     def run_impl(self, case):
         if case[0] == "ftymer":
             return run_ftymer(case)
+        if case[0] == "fmono":
+            return T.run_fmono(case)
+        if case[0] == "ptimer":
+            return T.run_ptimer(case)
         if case[0] == "tymer":
             return T.run_tymer(case)
         if case[0] == "mono":
@@ -171,10 +188,45 @@ class C08(core.Check):
     def oracle(self, case, obs):
         if case[0] == "ftymer":
             return oracle_ftymer(case, obs)
+        if case[0] == "fmono":
+            return T.oracle_fmono(case, obs)
+        if case[0] == "ptimer":
+            return T.oracle_ptimer(case, obs)
         return T.oracle_tymer(case, obs) if case[0] == "tymer" else T.oracle_mono(case, obs)
+
+    def known(self, case, obs, clauses):
+        # C08-K1: in doubles the retrograde shift (start += delta, last += delta) rounds, so `elapsed` can come out a few ulp
+        # (of the clock readings' magnitude) smaller than before.  Trigger: raw-float MonoTimer case whose ONLY violated clause
+        # is the decrease, i.e. every value the timer reported equals the float reference (nothing but the rounding of the
+        # shift is involved), and every decrease is at most 2 ulp(M) per clock reading since the previous elapsed read,
+        # M = largest magnitude among the clock readings and the elapsed value.
+        if case[0] == "fmono" and clauses == ["fmono-elapsed-decreased"]:
+            import math
+            rs, c = [], float(case[1])
+            for d in case[2]:
+                c = c + d
+                rs.append(abs(c))
+            prev, pn = None, None
+            for op, o in zip(case[4], T.unwrapF(obs)[1:]):
+                if o == ("exhausted",):
+                    break
+                if op[0] in ("start", "restart"):
+                    prev = None
+                elif op[0] == "elapsed":
+                    if prev is not None and o[0] < prev:
+                        m = max([abs(prev)] + rs[:o[1]])
+                        if prev - o[0] > 2 * (o[1] - pn) * math.ulp(m):
+                            return None
+                    prev, pn = o[0], o[1]
+            return "C08-K1"
+        return None
 
     def nontrivial(self, case, obs):
         ops = case[-1]
+        if case[0] == "fmono":
+            return len(ops) >= 2 and any(d < 0 for d in case[2])
+        if case[0] == "ptimer":
+            return len(ops) >= 2
         if case[0] == "ftymer":
             return len(ops) >= 2
         if len(ops) < 2:
@@ -184,6 +236,12 @@ class C08(core.Check):
         return any(d < 0 for d in case[2]) or any(o[0] in ("start", "restart") for o in ops)
 
     def features(self, case, obs):
+        if case[0] == "ptimer":
+            return ["ptimer:" + case[1]] + (["ptimer:backward-step"] if any(d < 0 for d in case[3]) else []) + \
+                (["ptimer:expired-seen"] if any(len(o) == 2 and o[0] is True for o in obs) else [])
+        if case[0] == "fmono":
+            return ["fmono"] + (["fmono:expired-seen"] if any(len(o) == 2 and o[0] is True for o in obs) else []) + \
+                (["fmono:backward-step"] if any(d < 0 for d in case[2]) else [])
         if case[0] == "ftymer":
             return ["ftymer"] + (["ftymer:expired-seen"] if any(o[2] for o in obs) else [])
         f = [case[0]]
@@ -215,13 +273,19 @@ class C08(core.Check):
         return f
 
     def shrink(self, case):
+        if case[0] == "ptimer":
+            return T.shrink_ptimer(case)
+        if case[0] == "fmono":
+            return []      # readings are aimed at float neighbours of the deadline: dropping an op shifts the script
         if case[0] == "ftymer":
             ops = case[3]
             return [("ftymer", case[1], case[2], ops[:i] + ops[i + 1:]) for i in range(len(ops))]
         return T.shrink_tymer(case) if case[0] == "tymer" else T.shrink_mono(case)
 
     def mutate(self, rng, case):
-        if case[0] == "ftymer":
+        if case[0] == "ptimer":
+            return list(T.shrink_ptimer(case))[:30]
+        if case[0] in ("ftymer", "fmono"):
             return []
         out = list(self.shrink(case))[:30]
         if case[0] == "mono":
